@@ -49,6 +49,10 @@ type SendSideBWE struct {
 	feedbackAdapter *cc.FeedbackAdapter
 
 	onTargetBitrateChange func(bitrate int)
+	// changes not yet handed to onTargetBitrateChange (guarded by lock), and
+	// the lock that keeps the callbacks in the order of the changes
+	pendingChanges []int
+	callbackLock   sync.Mutex
 
 	lock          sync.Mutex
 	latestStats   Stats
@@ -307,11 +311,33 @@ func (e *SendSideBWE) onDelayUpdate(delayStats DelayStats) {
 	}
 
 	if bitrateChanged && e.onTargetBitrateChange != nil {
-		go e.onTargetBitrateChange(bitrate)
+		e.pendingChanges = append(e.pendingChanges, bitrate)
+		go e.deliverTargetBitrateChange()
 	}
 
 	e.latestStats = Stats{
 		LossStats:  lossStats,
 		DelayStats: delayStats,
 	}
+}
+
+// deliverTargetBitrateChange hands the oldest pending change to the callback.
+// One call is started per change; whichever runs first delivers the oldest
+// change, so the callback sees the changes in order and the last value it
+// receives is the current target.
+func (e *SendSideBWE) deliverTargetBitrateChange() {
+	e.callbackLock.Lock()
+	defer e.callbackLock.Unlock()
+
+	e.lock.Lock()
+	if len(e.pendingChanges) == 0 {
+		e.lock.Unlock()
+
+		return
+	}
+	bitrate := e.pendingChanges[0]
+	e.pendingChanges = e.pendingChanges[1:]
+	e.lock.Unlock()
+
+	e.onTargetBitrateChange(bitrate)
 }
